@@ -15,6 +15,7 @@ import (
 	"time"
 
 	"github.com/Comcast/sheens/core"
+	"github.com/Comcast/sheens/match"
 	"pgregory.net/rapid"
 	"verif/lib/ev"
 	"verif/lib/jsongen"
@@ -40,7 +41,9 @@ nodes:
       source: |-
         var bs = _.bindings;
         var c = (typeof bs.count === 'number' ? bs.count : 0) + 1;
-        return {count: c};
+        var out = {count: c};
+        if (typeof bs.per === 'number') { out.per = bs.per; out.rate = 1 / bs.per; }
+        return out;
     branching:
       branches:
       - target: start
@@ -50,6 +53,9 @@ type SOpV struct {
 	Kind string `json:"kind"` // add, rem, process, read, down, up, poisonAdd
 	Mid  string `json:"mid,omitempty"`
 	All  bool   `json:"all,omitempty"`
+	// Per0: the machine is added with bindings {"per":0}; its action then
+	// computes 1/0 = +Inf, a state that cannot be written
+	Per0 bool `json:"per0,omitempty"`
 }
 
 type ServiceCase struct {
@@ -60,15 +66,21 @@ type ServiceCase struct {
 
 var c16mids = []string{"a", "b", "c"}
 
-func genSOp(t *rapid.T, label string, faults bool) SOpV {
+func genSOp(t *rapid.T, label string, faults bool, pool ...string) SOpV {
+	if len(pool) == 0 {
+		pool = c16mids
+	}
 	kinds := []string{"add", "add", "rem", "process", "process", "process", "read"}
 	if faults {
 		kinds = append(kinds, "down", "up", "up", "poisonAdd")
 	}
 	op := SOpV{Kind: rapid.SampledFrom(kinds).Draw(t, label+".k")}
-	op.Mid = rapid.SampledFrom(c16mids).Draw(t, label+".mid")
+	op.Mid = rapid.SampledFrom(pool).Draw(t, label+".mid")
 	if op.Kind == "process" {
 		op.All = rapid.IntRange(0, 3).Draw(t, label+".all") == 0
+	}
+	if op.Kind == "add" && faults {
+		op.Per0 = rapid.IntRange(0, 5).Draw(t, label+".per0") == 0
 	}
 	return op
 }
@@ -90,8 +102,24 @@ func genService(t *rapid.T) ServiceCase {
 		}
 		return c
 	}
+	pool := c16mids
+	if rapid.IntRange(0, 2).Draw(t, "big") == 0 {
+		// a bigger crew, some of whose machines cannot be written after
+		// their next step: a broadcast then is one write of many states
+		// of which some fail
+		n := rapid.SampledFrom([]int{2, 5, 9, 17, 20, 33, 40, 70}).Draw(t, "crew")
+		pool = nil
+		for i := 0; i < n; i++ {
+			pool = append(pool, fmt.Sprintf("m%02d", i))
+		}
+		bad := rapid.IntRange(0, n-1).Draw(t, "bad")
+		for i, mid := range pool {
+			c.Ops = append(c.Ops, SOpV{Kind: "add", Mid: mid, Per0: i == bad || rapid.IntRange(0, 15).Draw(t, fmt.Sprintf("p%d", i)) == 0})
+		}
+		c.Ops = append(c.Ops, SOpV{Kind: "process", All: true})
+	}
 	for i := rapid.IntRange(1, 15).Draw(t, "n"); i > 0; i-- {
-		c.Ops = append(c.Ops, genSOp(t, fmt.Sprintf("o%d", i), true))
+		c.Ops = append(c.Ops, genSOp(t, fmt.Sprintf("o%d", i), true, pool...))
 	}
 	return c
 }
@@ -171,6 +199,9 @@ func viewStr(v map[string]string) string {
 func doSOp(ctx context.Context, s *Service, op SOpV) (map[string]*core.Walked, error) {
 	switch op.Kind {
 	case "add":
+		if op.Per0 {
+			return nil, s.AddMachine(ctx, "vcounter", op.Mid, "", match.Bindings{"per": 0.0})
+		}
 		return nil, s.AddMachine(ctx, "vcounter", op.Mid, "", nil)
 	case "poisonAdd":
 		// bolt rejects the empty key, so this write fails as a whole
@@ -234,6 +265,13 @@ func checkService(c ServiceCase) (v ev.Verdict) {
 			faultWindowOps[op.Kind] = true
 		}
 		_, operr := doSOp(ctx, s, op)
+		if operr != nil && op.Kind == "process" && op.All && !down && len(before) >= 2 {
+			// one write of several states of which at least one cannot
+			// be written
+			faultWindowOps["partial-write"] = true
+			faultWindowOps[fmt.Sprintf("partial-write-crew-%d", len(before)/16*16)] = true
+			v.Class("partial-write-fault")
+		}
 		mem := memView(s)
 		st, err := storeView(ctx, s, down)
 		if err != nil {
